@@ -82,8 +82,12 @@ def scenarios(ctx):
         w["vcf_gt"] = vg
         w["errfree"] = False
         w["opts"] = {"ped": True, "tag": rng.choice(["PS", "HP"]), "genetic_haplotyping": rng.random() < 0.8,
-                     "only_snvs": rng.random() < 0.15}
+                     "only_snvs": rng.random() < 0.15, "lists": {"recomb": rng.random() < 0.6}}
         scs.append({"world": w})
+    # nested phase sets with a forced recombination (quartets): reported transmission vs. phased calls
+    from .c20 import nested_world
+    for i in range(40 if ctx.quick else 1000):
+        scs.append({"world": nested_world(rng)})
     return scs
 
 
